@@ -26,6 +26,10 @@ def decode(enc, wd_abs=None):
             return tuple(decode(x) for x in enc["__t"])
         if "__d" in enc:
             return {k: decode(v) for k, v in enc["__d"].items()}
+        if "__m" in enc:
+            import types
+
+            return types.MappingProxyType({k: decode(v) for k, v in enc["__m"].items()})
     raise ValueError(enc)
 
 
@@ -137,14 +141,23 @@ def real_root():
 
         d = os.path.realpath(tempfile.mkdtemp(prefix="gwfapiroot", dir="/dev/shm" if os.path.isdir("/dev/shm") else None))
         atexit.register(shutil.rmtree, d, True)
+        # working directories used by the generators, a symlinked alias of one of them, and in each of them a
+        # symlink named q9 (the spelling "q9/../x" must be normalised textually, not through the link)
+        os.makedirs(os.path.join(d, "deep", "real"))
+        for sub in ("", "w1", "w1/w2", "w2", "d", "d/e", "x"):
+            os.makedirs(os.path.join(d, sub), exist_ok=True)
+            os.symlink(os.path.join(d, "deep", "real"), os.path.join(d, sub, "q9"))
+        os.symlink(os.path.join(d, "w1"), os.path.join(d, "lnk"))
         _REAL_ROOT[0] = d
     return _REAL_ROOT[0]
 
 
-def build_graph(desc, root=ROOT):
+def build_graph(desc, root=ROOT, real=False):
+    """real=True: the project root is a real directory (with symlinks in it) and the process cwd while
+    the graph is built; otherwise the root is the virtual /proj."""
     from gwf.core import Graph
 
-    if any(d.get("relwd") for d in desc["targets"]):
+    if real or any(d.get("relwd") for d in desc["targets"]):
         root = real_root()
         old = os.getcwd()
         os.chdir(root)
